@@ -145,6 +145,7 @@ typedef struct {
 
     unsigned long long last_run_op_count; /* op count of the last run (also on exceptions) */
     double last_run_paused_seconds;       /* IO-paused seconds of the last run (also on exceptions) */
+    PyObject* last_run_last_ops;          /* the last-ops list of a run that ended by a python exception (else NULL) */
 } MemoryObject;
 
 /* ---------------------------------------------------------------- pages */
@@ -615,6 +616,7 @@ static void mem_free_allocations(MemoryObject* self)
     self->flat = NULL;
     free(self->segments);
     self->segments = NULL;
+    Py_CLEAR(self->last_run_last_ops);
 }
 
 static int Memory_init(PyObject* op, PyObject* args, PyObject* kwds)
@@ -1542,18 +1544,14 @@ static int run_generic_loop(MemoryObject* self, PyObject* read_bit, PyObject* wr
 
 /* build the (cause, op_count, error_bit_address_or_None, last_ops, paused_seconds) result tuple.
    takes ownership of last_ops_ring (frees it). */
-static PyObject* build_run_result(MemoryObject* self, int cause, uint64_t ops, uint64_t* last_ops_ring,
-                                  Py_ssize_t last_ops_length, uint64_t ring_writes, double paused_seconds)
+/* the last-ops ring as a python list, in execution order (oldest first). does not free the ring. */
+static PyObject* last_ops_ring_to_list(const uint64_t* last_ops_ring, Py_ssize_t last_ops_length, uint64_t ring_writes)
 {
     PyObject* last_ops_list = PyList_New(0);
-    PyObject* error_address;
     if (!last_ops_list) {
-        free(last_ops_ring);
         return NULL;
     }
-    (void)ops;
     if (last_ops_ring) {
-        /* emit in execution order: oldest first */
         uint64_t total = (ring_writes < (uint64_t)last_ops_length) ? ring_writes : (uint64_t)last_ops_length;
         uint64_t ring_pos = ring_writes % (uint64_t)last_ops_length;
         uint64_t start = (ring_pos + (uint64_t)last_ops_length - total) % (uint64_t)last_ops_length;
@@ -1562,13 +1560,24 @@ static PyObject* build_run_result(MemoryObject* self, int cause, uint64_t ops, u
             if (!address || PyList_Append(last_ops_list, address) < 0) {
                 Py_XDECREF(address);
                 Py_DECREF(last_ops_list);
-                free(last_ops_ring);
                 return NULL;
             }
             Py_DECREF(address);
         }
-        free(last_ops_ring);
     }
+    return last_ops_list;
+}
+
+static PyObject* build_run_result(MemoryObject* self, int cause, uint64_t ops, uint64_t* last_ops_ring,
+                                  Py_ssize_t last_ops_length, uint64_t ring_writes, double paused_seconds)
+{
+    PyObject* last_ops_list = last_ops_ring_to_list(last_ops_ring, last_ops_length, ring_writes);
+    PyObject* error_address;
+    free(last_ops_ring);
+    if (!last_ops_list) {
+        return NULL;
+    }
+    (void)ops;
     if (cause == TERM_MEMORY_ERROR) {
         error_address = PyLong_FromUnsignedLongLong(self->error_bit_address);
     } else {
@@ -1603,6 +1612,7 @@ static PyObject* Memory_run(MemoryObject* self, PyObject* args, PyObject* kwds)
     if (last_ops_length < 0) {
         last_ops_length = 0;
     }
+    Py_CLEAR(self->last_run_last_ops);
 
     if (mem_decide_storage(self) < 0) {
         return NULL;
@@ -1649,6 +1659,13 @@ static PyObject* Memory_run(MemoryObject* self, PyObject* args, PyObject* kwds)
         int loop_cause = run_generic_loop(self, read_bit, write_bit, eof_exception_type, start_ip, &loop_ops,
                                           &loop_paused, last_ops_ring, last_ops_length, &loop_ring_writes);
         if (loop_cause == CAUSE_PYTHON_ERROR) {
+            /* keep the last-ops list valid on the exception paths too (Ctrl+C, IO-device errors),
+               like last_run_op_count: the python loops' list holds the ops executed up to the stop */
+            PyObject *error_type, *error_value, *error_traceback;
+            PyErr_Fetch(&error_type, &error_value, &error_traceback);
+            self->last_run_last_ops = last_ops_ring_to_list(last_ops_ring, last_ops_length, loop_ring_writes);
+            PyErr_Clear(); /* a failed list build only loses the debugging list */
+            PyErr_Restore(error_type, error_value, error_traceback);
             free(last_ops_ring);
             return NULL;
         }
@@ -1667,6 +1684,16 @@ static PyObject* Memory_get_paused_seconds(MemoryObject* self, void* closure)
 {
     (void)closure;
     return PyFloat_FromDouble(self->last_run_paused_seconds);
+}
+
+static PyObject* Memory_get_last_ops(MemoryObject* self, void* closure)
+{
+    (void)closure;
+    if (!self->last_run_last_ops) {
+        return PyList_New(0);
+    }
+    Py_INCREF(self->last_run_last_ops);
+    return self->last_run_last_ops;
 }
 
 static PyObject* Memory_get_storage_mode(MemoryObject* self, void* closure)
@@ -1713,6 +1740,8 @@ static PyGetSetDef Memory_getset[] = {
      NULL},
     {"last_run_paused_seconds", (getter)Memory_get_paused_seconds, NULL,
      "IO-paused seconds of the last run (valid on exceptions too)", NULL},
+    {"last_run_last_ops", (getter)Memory_get_last_ops, NULL,
+     "the last-ops list of the last run when it ended by an exception (else empty)", NULL},
     {"allocated_bytes", (getter)Memory_get_allocated_bytes, NULL,
      "bytes allocated for memory pages (footprint scales with touched memory, not segment sizes)", NULL},
     {"storage_mode", (getter)Memory_get_storage_mode, NULL,
